@@ -384,6 +384,10 @@ class Tr:
 
     def E_iter(self, it, env, single):
         """iterable of a for / comprehension"""
+        for hook in EXPR_HOOKS:
+            r = hook(self, it, env)
+            if r is not None:
+                return r
         if isinstance(it, ast.Call):
             f = it.func
             fname = f.id if isinstance(f, ast.Name) else (f.attr if isinstance(f, ast.Attribute) else None)
@@ -1181,6 +1185,124 @@ def _s_dev(tr, s, rest, env, tail):
         return tr.wrap(ek + ex, f'let {dn} := dict_append {tk} {tx} {dn} in {tr.T(rest, env, tail)}')
 
 
+# ---- TrenchWriter.pgm / _export_trench_column / _farcall_trench_column (C06): which files are written, and which files the
+# ---- programs load - names only (what the programs do is SrcFc.v)
+_TN_PRODUCT = ("Call(func=Name(id='list'), args=[Call(func=Attribute(value=Name(id='itertools'), attr='product'), args=[Call(func=Name(id='range'), "
+               "args=[Attribute(value=Name(id='column'), attr='nboxz')], keywords=[]), Call(func=Name(id='list'), args=[Call(func=Name(id='enumerate'), "
+               "args=[Name(id='column')], keywords=[])], keywords=[])], keywords=[])], keywords=[])")
+_TN_TOOLPATH = "Call(func=Name(id='enumerate'), args=[Call(func=Attribute(value=Name(id='trench'), attr='toolpath'), args=[], keywords=[])], keywords=[])"
+
+
+def _h_tn(tr, e, env):
+    d = dump(e)
+    if d == "Attribute(value=Name(id='self'), attr='obj_list')":
+        return [], '(tn_objs c)'
+    if d == "Attribute(value=Name(id='self'), attr='_export_path')":
+        return [], '(tn_export c)'
+    if isinstance(e, ast.Attribute) and e.attr == 'base_folder' and isinstance(e.value, ast.Name):
+        return [], f'(tn_base {cname(e.value.id)})'
+    if isinstance(e, ast.BinOp) and isinstance(e.op, ast.Div):
+        el, tl = tr.E(e.left, env)
+        er, trr = tr.E(e.right, env)
+        return el + er, f'(pjoin {tl} {trr})'
+    if isinstance(e, ast.Call) and len(e.args) == 1 and not e.keywords and (dump(e.func) in ("Attribute(value=Name(id='pathlib'), attr='Path')", "Name(id='str')")):
+        return tr.E(e.args[0], env)
+    if isinstance(e, ast.Constant) and isinstance(e.value, str):
+        return [], f'[PL {cstr(e.value)}]'
+    if d == _TN_PRODUCT:
+        return [], '(product_ (zrange 0 (Z.of_nat (tn_nboxz column))) (enumerate_ (tn_blocks column)))'
+    if d == "Call(func=Name(id='enumerate'), args=[Name(id='column')], keywords=[])":
+        return [], '(enumerate_ (tn_blocks column))'
+
+
+def _tn_g_call(st):
+    return (isinstance(st, ast.Expr) and isinstance(st.value, ast.Call) and isinstance(st.value.func, ast.Attribute)
+            and isinstance(st.value.func.value, ast.Name) and st.value.func.value.id == 'G')
+
+
+def _tn_noise(st):
+    """statements that neither create a file nor load one"""
+    if _tn_g_call(st):
+        return st.value.func.attr not in ('load_program', 'farcall_list')
+    if isinstance(st, ast.With) and len(st.items) == 1 and dump(st.items[0].context_expr).startswith("Call(func=Attribute(value=Name(id='G'), attr='repeat')"):
+        return all(_tn_noise(b) for b in st.body)
+    if isinstance(st, ast.If) and not st.orelse and dump(st.test) == "Attribute(value=Name(id='column'), attr='u')":
+        return all(_tn_noise(b) for b in st.body)
+    if isinstance(st, ast.If) and dump(st.test) == "Name(id='verbose')" and not st.orelse:
+        # prints and the fabrication-time estimate
+        return not any(isinstance(n, ast.Call) and isinstance(n.func, ast.Attribute) and n.func.attr in ('mkdir', 'export_array2d', 'load_program')
+                       for n in ast.walk(st))
+    if isinstance(st, ast.Assign) and len(st.targets) == 1:
+        tg, v = st.targets[0], st.value
+        if isinstance(tg, ast.Tuple) and (dump(v).startswith("Call(func=Attribute(value=Name(id='self'), attr='transform_points')")
+                                          or dump(v) == "Attribute(value=Name(id='trench'), attr='border')"):
+            return True
+        if isinstance(tg, ast.Name) and isinstance(v, ast.Call) and dump(v.func).startswith("Attribute(value=Name(id='np')"):
+            return True
+        if isinstance(tg, ast.Name) and dump(v) == "Call(func=Name(id='dict'), args=[Call(func=Attribute(value=Attribute(value=Name(id='self'), attr='_param'), attr='copy'), args=[], keywords=[])], keywords=[])":
+            return True
+        if (isinstance(tg, ast.Subscript) and isinstance(tg.value, ast.Name) and isinstance(tg.slice, ast.Constant)
+                and tg.slice.value in ('aerotech_angle', 'rotation_angle') and isinstance(v, ast.Constant) and v.value is None):
+            return True
+    if isinstance(st, ast.For) and dump(st.iter) == _TN_TOOLPATH:
+        # the floor arrays: numpy only
+        return not any(isinstance(n, ast.Call) and isinstance(n.func, ast.Attribute) and n.func.attr in ('mkdir', 'export_array2d', 'load_program')
+                       for n in ast.walk(st))
+    return False
+
+
+def _s_tn(tr, s, rest, env, tail):
+    if _tn_g_call(s) and s.value.func.attr == 'load_program' and len(s.value.args) == 1 and not s.value.keywords:
+        eff, t = tr.E(s.value.args[0], env)
+        return tr.wrap(eff, f'emit (ALoad {t}) ;;; {tr.T(rest, env, tail)}')
+    if _tn_g_call(s) and s.value.func.attr == 'farcall_list' and len(s.value.args) == 1 and isinstance(s.value.args[0], ast.Name) and not s.value.keywords:
+        return f'emit_loads {cname(s.value.args[0].id)} ;;; {tr.T(rest, env, tail)}'
+    if isinstance(s, ast.Expr) and isinstance(s.value, ast.Call) and isinstance(s.value.func, ast.Attribute):
+        f = s.value.func
+        if f.attr == 'mkdir' and isinstance(f.value, ast.Name) and not s.value.args \
+                and sorted((k.arg, dump(k.value)) for k in s.value.keywords) == [('exist_ok', 'Constant(value=True)'), ('parents', 'Constant(value=True)')]:
+            return f'emit (AMkdir {cname(f.value.id)}) ;;; {tr.T(rest, env, tail)}'
+        if f.attr == 'export_array2d' and dump(f.value) == "Name(id='self')" and not s.value.args:
+            kw = {k.arg: k.value for k in s.value.keywords}
+            if 'filename' not in kw:
+                raise Unsupported('export_array2d without filename=')
+            eff, t = tr.E(kw['filename'], env)
+            return tr.wrap(eff, f'emit (AWrite {t}) ;;; {tr.T(rest, env, tail)}')
+    if (isinstance(s, ast.Assign) and len(s.targets) == 1 and isinstance(s.targets[0], ast.Subscript) and isinstance(s.targets[0].value, ast.Name)
+            and isinstance(s.targets[0].slice, ast.Constant) and s.targets[0].slice.value == 'filename'):
+        eff, t = tr.E(s.value, env)
+        return tr.wrap(eff, f'let {cname(s.targets[0].value.id)}__file := {t} in {tr.T(rest, env, tail)}')
+    if isinstance(s, ast.With) and len(s.items) == 1:
+        m = re.fullmatch(r"Call\(func=Name\(id='PGMCompiler'\), args=\[\], keywords=\[keyword\(value=Name\(id='(\w+)'\)\)\]\)", dump(s.items[0].context_expr))
+        if m and dump(s.items[0].optional_vars) == "Name(id='G')":
+            body = tr.T(list(s.body), env, 'ret tt')
+            return f'emit (ABegin {cname(m.group(1))}__file) ;;; ({body}) ;;; emit AEnd ;;; {tr.T(rest, env, tail)}'
+
+
+def translate_tree_names(src_dir: str) -> str:
+    global METHODS, CFG_ATTRS, STATE_ATTRS, ORACLES, CFG_TYPE, LOCAL_ELT, EXTRA_PARAMS, MONAD, EXPR_HOOKS, STMT_SKIP, RECEIVERS, STMT_HOOKS
+    saved = (METHODS, CFG_ATTRS, STATE_ATTRS, ORACLES, CFG_TYPE, LOCAL_ELT, EXTRA_PARAMS, MONAD, EXPR_HOOKS, STMT_SKIP, RECEIVERS, STMT_HOOKS)
+    out = [PURE_PREAMBLE % ('writer.py', '', 'TnState')]
+    try:
+        mod = ast.parse(pathlib.Path(src_dir, 'writer.py').read_text())
+        cls = [n for n in mod.body if isinstance(n, ast.ClassDef) and n.name == 'TrenchWriter']
+        if len(cls) != 1:
+            raise Unsupported('class TrenchWriter not found in writer.py')
+        METHODS = {'_export_trench_column': ('method', [('column', 'tcol'), ('column_path', 'line')], 'unit'),
+                   '_farcall_trench_column': ('method', [('column', 'tcol'), ('index', 'Z')], 'unit'),
+                   'pgm': ('method', [('verbose', 'bool')], 'unit')}
+        CFG_ATTRS, STATE_ATTRS, ORACLES = set(), {}, {}
+        CFG_TYPE, LOCAL_ELT, EXTRA_PARAMS, MONAD = 'tn_cfg', {}, '', 'MT'
+        EXPR_HOOKS, STMT_SKIP, RECEIVERS, STMT_HOOKS = [_h_tn], [_tn_noise], {'self'}, [_s_tn]
+        tr = Tr(cls[0])
+        for meth in METHODS:
+            out.append(tr.method(meth).replace('src__', 'src_tn_').replace('src_pgm', 'src_tn_pgm'))
+            out.append('\n')
+    finally:
+        METHODS, CFG_ATTRS, STATE_ATTRS, ORACLES, CFG_TYPE, LOCAL_ELT, EXTRA_PARAMS, MONAD, EXPR_HOOKS, STMT_SKIP, RECEIVERS, STMT_HOOKS = saved
+    return ''.join(out)
+
+
 # ---- LaserPath.export / helpers.load_parameters (C19): where a file is written / read, how DEFAULT is merged
 _PA_OPEN_W = "With(items=[withitem(context_expr=Call(func=Name(id='open'), args=[Name(id='fn'), Constant(value='wb')], keywords=[]), optional_vars=Name(id='p'))]"
 _PA_OPEN_R = ("With(items=[withitem(context_expr=Call(func=Name(id='open'), args=[Name(id='fp')], keywords=[keyword(arg='mode', value=Constant(value='rb'))]), "
@@ -1484,6 +1606,8 @@ def main(argv):
                 name, text = g, translate_writers(str(src_dir))
             elif g == 'SrcAe.v':
                 name, text = g, translate_append_extend(str(src_dir))
+            elif g == 'SrcTn.v':
+                name, text = g, translate_tree_names(str(src_dir))
             elif g == 'SrcPa.v':
                 name, text = g, translate_persist(str(src_dir))
             elif g == 'SrcHl.v':
